@@ -21,7 +21,15 @@ MANIFEST = dict(
           "references denote their characters; the duplicate-attribute policy; special strings keep content and class (see evidence "
           "'theorems'). Tie: CPython's tokenizer is NOT modelled - its callback stream is recorded for every text by a plain HTMLParser "
           "subclass and (i) for documents written by an independent writer the real tree must equal the fold of the intended events, "
-          "(ii) for malformed text the real tree must equal the model's fold of the recorded stream."),
+          "(ii) for malformed text the real tree must equal the model's fold of the recorded stream. Whole documents: emit_build - for every "
+          "document, every assignment of the writer's per-occurrence choices (void spelling <br> / <br/> / <br></br>, chunking of text, "
+          "literal / decimal / hexadecimal / named spelling of every character with any leading zeros and case, keyword case, start-tag "
+          "positions) and every configuration, adapter + C03 machine applied to the callback stream of the written markup (Model/Writer.lean: "
+          "emit) yield the tree the document describes (normalise) - with corollaries void_spelling_irrelevant, "
+          "reference_spelling_irrelevant, nesting_preserved, attributes_preserved, special_strings_preserved; stream 'writer' ties both ends: "
+          "recorded tokenizer callbacks of the written text = emit for the choices the writer took, real parse = normalise, and the "
+          "excluded points (void element with a child, numeric reference to 128-159, over-long decimal digit string, unknown name) are run "
+          "on the real code, where the conclusion must fail."),
     design="7/C04",
     note=("PARTIAL: the tokenizer (which callbacks, with which positions, for a text) is recorded, not verified. Multi-valued attribute "
           "splitting is C17's: C04 runs with multi_valued_attributes=None except in the option-grid stream where values are compared joined."),
@@ -407,8 +415,21 @@ def gen_tree(r, depth=0, budget=None):
     return out
 
 
-def esc_text(r, s, attr_quote=None):
-    """Independent entity spelling: every markup-significant character gets a random valid spelling."""
+class ChoiceLog:
+    """The writer's choices, one entry per node in document order (the `choices` argument of `c04 emit`): element `p` `<br>` /
+    `s` `<br/>` / `r` `<br></br>` / `o` not void; text: one `.`-joined entry per character (`l` literal, `dZ` decimal with Z
+    leading zeros, `hXDZ` hexadecimal with upper-case x / digits, `nNAME` named); special string `k` + one 0/1 per keyword letter (1 = upper case).
+    `rng` (optional) is a SECOND random source for variation the plain writer does not have (leading zeros):
+    the writer's own random stream is consumed exactly as without logging."""
+
+    def __init__(self, rng=None):
+        self.entries = []
+        self.rng = rng
+
+
+def esc_text(r, s, attr_quote=None, log=None):
+    """Independent entity spelling: every markup-significant character gets a random valid spelling.
+    `log` (a ChoiceLog) receives the spelling taken per character (in `log.chars`); leading zeros only when it carries an rng."""
     out = []
     for i, ch in enumerate(s):
         must = ch in "&<>" or (attr_quote is not None and ch == attr_quote) or ch == "\r"
@@ -419,29 +440,71 @@ def esc_text(r, s, attr_quote=None):
             # numeric references below 256 take bs4's Windows-1252 detour; only use them where it is the identity
             if 0x80 <= ord(ch) <= 0x9f:
                 forms = [ch]
-            out.append(r.choice(forms))
+            f = r.choice(forms)
+            if log is not None:
+                z = log.rng.choice([0, 0, 0, 1, 2, 7]) if log.rng is not None else 0
+                if f == ch:
+                    log.chars.append("l")
+                elif f.startswith("&#x"):
+                    f = f"&#x{'0' * z}{ord(ch):x};"
+                    log.chars.append(f"h00{z}")
+                elif f.startswith("&#X"):
+                    f = f"&#X{'0' * z}{ord(ch):X};"
+                    log.chars.append(f"h11{z}")
+                elif f.startswith("&#"):
+                    f = f"&#{'0' * z}{ord(ch)};"
+                    log.chars.append(f"d{z}")
+                else:
+                    log.chars.append("n" + cps(f[1:-1]))
+            out.append(f)
         else:
             out.append(ch)
+            if log is not None:
+                log.chars.append("l")
     return "".join(out)
 
 
-def write(r, nodes, offsets, pos, in_raw=False):
-    """Returns markup; records (name, offset) of every start tag in `offsets` in document order."""
+def write(r, nodes, offsets, pos, in_raw=False, log=None):
+    """Returns markup; records (name, offset) of every start tag in `offsets` in document order.
+    `log` (a ChoiceLog) receives the choice taken per node; without it the output is exactly what it always was.
+    Node kinds `dt` (doctype) and `ud` (marked-section declaration `<![if x]>`) are only produced by the `writer` stream."""
     parts = []
     for nd in nodes:
         if nd[0] == "t":
-            s = nd[1] if in_raw else esc_text(r, nd[1])
+            if log is not None:
+                log.chars = []
+            s = nd[1] if in_raw else esc_text(r, nd[1], log=log)
+            if log is not None:
+                log.entries.append(".".join(log.chars if not in_raw else ["l"] * len(nd[1])) or "-")
             parts.append(s)
             pos[0] += len(s)
         elif nd[0] == "c":
             s = f"<!--{nd[1]}-->"
             parts.append(s); pos[0] += len(s)
+            if log is not None:
+                log.entries.append("k")
         elif nd[0] == "cd":
-            s = f"<![{r.choice(['CDATA', 'CDATA', 'cdata', 'CData'])}[{nd[1]}]]>"       # the keyword's case is the writer's choice
+            kw = r.choice(['CDATA', 'CDATA', 'cdata', 'CData'])       # the keyword's case is the writer's choice
+            s = f"<![{kw}[{nd[1]}]]>"
             parts.append(s); pos[0] += len(s)
+            if log is not None:
+                log.entries.append("k" + "".join("1" if ch.isupper() else "0" for ch in kw))
         elif nd[0] == "pi":
             s = f"<?{nd[1]}>"
             parts.append(s); pos[0] += len(s)
+            if log is not None:
+                log.entries.append("k")
+        elif nd[0] == "dt":
+            kw = r.choice(['DOCTYPE', 'DOCTYPE', 'doctype', 'DocType', 'Doctype'])
+            s = f"<!{kw} {nd[1]}>"
+            parts.append(s); pos[0] += len(s)
+            if log is not None:
+                log.entries.append("k" + "".join("1" if ch.isupper() else "0" for ch in kw))
+        elif nd[0] == "ud":
+            s = f"<![{nd[1]}]>"
+            parts.append(s); pos[0] += len(s)
+            if log is not None:
+                log.entries.append("k")
         else:
             _, name, attrs, kids = nd
             offsets.append(pos[0])
@@ -454,6 +517,8 @@ def write(r, nodes, offsets, pos, in_raw=False):
                     q = r.choice(['"', "'"])
                     s += r.choice(["=", " = ", "= "]) + q + esc_text(r, v, q) + q
             spelling = r.choice(["plain", "slash", "spaceslash", "pair"]) if name in VOID else "open"
+            if log is not None:
+                log.entries.append({"plain": "p", "slash": "s", "spaceslash": "s", "pair": "r", "open": "o"}[spelling])
             if spelling == "slash":
                 s += "/>"
             elif spelling == "spaceslash":
@@ -466,7 +531,7 @@ def write(r, nodes, offsets, pos, in_raw=False):
                     e = f"</{name}>"
                     parts.append(e); pos[0] += len(e)
             else:
-                parts.append(write(r, kids, offsets, pos, in_raw=name in ("script", "style")))
+                parts.append(write(r, kids, offsets, pos, in_raw=name in ("script", "style"), log=log))
                 e = f"</{wname}>"
                 parts.append(e); pos[0] += len(e)
     return "".join(parts)
@@ -500,9 +565,9 @@ def intended(nodes, offsets_iter, text, lines=True):
         for nd in nodes:
             if nd[0] == "t":
                 pending.append(nd[1])
-            elif nd[0] in ("c", "cd", "pi"):
+            elif nd[0] in ("c", "cd", "pi", "dt", "ud"):
                 flush()
-                cls = {"c": 1, "cd": 2, "pi": 3}[nd[0]]
+                cls = {"c": 1, "cd": 2, "pi": 3, "ud": 4, "dt": 5}[nd[0]]
                 s = nd[1]
                 # C03's whitespace rule applies to every string that goes through endData, special ones included
                 # (an empty or whitespace-only comment/CDATA becomes one space or newline; DESIGN.md section 8, quirks)
@@ -521,6 +586,164 @@ def intended(nodes, offsets_iter, text, lines=True):
     out = []
     walk(nodes, [], out)
     return "".join(out)
+
+
+# ------------------------------------------------------------------------------------------------
+# the whole-document theorem `emit_build`: both of its ends against the real code
+# ------------------------------------------------------------------------------------------------
+def doc_tokens(nodes, offsets_iter, text):
+    """The `doc` argument of `c04 emit` / `c04 norm`: nodes in document order, start-tag positions from the written text."""
+    out = []
+
+    def linecol(off):
+        return text.count("\n", 0, off) + 1, off - (text.rfind("\n", 0, off) + 1)
+
+    def walk(nodes):
+        for nd in nodes:
+            if nd[0] == "t":
+                out.append(f"T|{cps(nd[1]) or '-'}")
+            elif nd[0] in ("c", "cd", "pi", "dt", "ud"):
+                out.append(f"S|{nd[0]}|{cps(nd[1]) or '-'}")
+            else:
+                _, name, attrs, kids = nd
+                l, c = linecol(next(offsets_iter))
+                a = "&".join(f"{cps(k) or '-'}={'~' if v is None else (cps(v) or '-')}" for k, v in attrs) or "-"
+                out.append(f"E|{cps(name)}|{l}|{c}|{a}|{len(kids)}")
+                walk(kids)
+    walk(nodes)
+    return ";".join(out) or "-"
+
+
+def merge_data(evs):
+    """Callback streams are compared up to the cutting of character data into chunks (the tokenizer cuts at `&` and at
+    buffer boundaries; `data_chunking_irrelevant`, and `emit_build` itself, say the tree does not depend on it) and without
+    the recorder's resolution field of `ER`."""
+    out = []
+    for e in evs:
+        if e.startswith("ER|"):
+            e = "|".join(e.split("|")[:2])
+        if e.startswith("D|") and out and out[-1].startswith("D|"):
+            a, b = out[-1][2:], e[2:]
+            out[-1] = "D|" + ",".join(x for x in (a, b) if x != "-") if (a != "-" or b != "-") else "D|-"
+        else:
+            out.append(e)
+    return out
+
+
+WRITER_OPTS = [{}, {}, {}, {"dup": "ignore"}, {"dup": "acc"}, {"lines": 0}, {"cont": {"b": 6, "pre": 7}, "pre": ["a", "span"]},
+               {"cont": {}, "pre": []}]
+
+
+def writer_stream(ctx, drv):
+    """`emit_build : adapterBuild cfg (emit d c) = normalise cfg d` tied to the real code at both ends, for the documents of
+    `gen_tree` (plus doctypes and `<![if …]>` declarations) and the choices the harness writer actually took:
+      (i)  the real tokenizer's callbacks on the written text (recorder, no bs4) = Lean `emit d c`;
+      (ii) the real parse = Lean `normalise d` (and = the independent Python fold of the intended events).
+    Then the points `Representable`/`WellSpelt` exclude are run on the real code: the conclusion must FAIL there."""
+    lines, meta = [], []
+    for i in range(ctx.n(2000, 30000)):
+        r = ctx.rng("writer", i)
+        x = ctx.rng("writer-extra", i)
+        nodes = gen_tree(r)
+        if x.random() < 0.3:
+            nodes = [("dt", x.choice(["html", "HTML PUBLIC \"-//W3C//DTD HTML 4.01//EN\"", "x  y", "", " ", "html\n"]))] + nodes
+        if x.random() < 0.15:
+            nodes.insert(x.randint(0, len(nodes)), ("ud", x.choice(["if x", "endif", "if gte mso 9", "else", "if !IE"])))
+        if x.random() < 0.1:
+            nodes.insert(x.randint(0, len(nodes)), ("t", ""))          # an empty text: nothing is written, nothing is built
+        if x.random() < 0.3:
+            # several void elements of ONE name in one document, so that every mixture of the three spellings occurs
+            # (`<br>` … `<br/>` is what 4.13.0 got wrong): inserted at the top level or into ordinary elements
+            vname = x.choice(VOID)
+            hosts = [nodes]
+            def collect(ns):
+                for nd in ns:
+                    if nd[0] == "e" and nd[1] not in VOID and nd[1] not in ("script", "style", "textarea"):
+                        hosts.append(nd[3]); collect(nd[3])
+            collect(nodes)
+            for _ in range(x.randint(2, 4)):
+                h = x.choice(hosts)
+                h.insert(x.randint(0, len(h)), ("e", vname, [], []))
+            ctx.count("writer:same-void-name-repeated")
+        opts = x.choice(WRITER_OPTS)
+        log = ChoiceLog(ctx.rng("writer-choices", i))
+        offsets = []
+        text = write(r, nodes, offsets, [0], log=log)
+        # the cutting of literal text into chunks is the tokenizer's choice, not the writer's: exercise the model's with random cuts
+        ent = []
+        for e in log.entries:
+            if e[:1] in ("l", "d", "h", "n"):
+                e = ".".join(("c" if (c == "l" and x.random() < 0.15) else c) for c in e.split("."))
+            ent.append(e)
+        try:
+            soup = real_parse(text, opts)
+        except Exception as e:
+            ctx.violation(f"parsing a written document raised {type(e).__name__}: {e}", case={"text": text, "opts": opts}, stream="writer")
+            continue
+        got = shape(soup)
+        evs = record(text)
+        if evs is None:
+            ctx.violation("the tokenizer rejected a written document", case={"text": text, "opts": opts}, stream="writer", no_failing_input=True)
+            continue
+        # the independent fold (an empty text is no event at all: it is not among the intended events)
+        exp = intended([nd for nd in nodes if nd != ("t", "")], iter(offsets), text) if not opts else None
+        doc = doc_tokens(nodes, iter(offsets), text)
+        cfg = cfg_tokens(opts)
+        lines.append(f"c04 emit {cfg} {doc} {';'.join(ent) or '-'}")
+        lines.append(f"c04 norm {cfg} {doc}")
+        meta.append((text, opts, evs, got, exp))
+        kinds = {e.split(".")[0][:1] for e in ent} | {c[:1] for e in ent for c in e.split(".")}
+        for k in sorted(kinds & set("psrdhnc")):
+            ctx.count("writer:choice:" + {"p": "<br>", "s": "<br/>", "r": "<br></br>", "d": "decimal", "h": "hex", "n": "named", "c": "chunk-cut"}[k])
+        for e in ent:
+            if e[:1] == "k" and len(e) > 1:
+                ctx.count("writer:choice:keyword-" + ("upper" if "0" not in e else "lower" if "1" not in e else "mixed-case"))
+        ctx.case(("writer", text, json.dumps(opts, sort_keys=True)),
+                 sample={"text": text, "choices": ";".join(ent)[:200], "tree": got[:200]} if len(ctx.samples) < 8 else None)
+    rep = drv.ask(lines)
+    for j, (text, opts, evs, got, exp) in enumerate(meta):
+        em, nm = rep[2 * j], rep[2 * j + 1]
+        case = {"text": text, "opts": opts}
+        a, b = merge_data(evs), merge_data([] if em == "-" else em.split(";"))
+        if a != b:
+            ctx.corr_disagreements += 1
+            ctx.violation("the tokenizer's callbacks on the written text are not the stream `emit` of the model", case=case,
+                          observed=";".join(a), model=";".join(b), stream="writer-emit", no_failing_input=True)
+        if exp is not None and got != exp:
+            ctx.violation("tree differs from the tree the markup describes (fold of the writer's intended events)",
+                          case=case, expected=exp, observed=got, stream="writer")
+        if got != nm:
+            ctx.corr_disagreements += 1
+            ctx.violation("real parse differs from `normalise` of the written document", case=case, observed=got, model=nm,
+                          expected=exp, stream="writer-norm", no_failing_input=(exp is None or got == exp))
+    ctx.count("writer:documents", len(meta))
+
+    # the excluded points, on the real code: (markup, document, choices, what is excluded)
+    big = 4400
+    excluded = [
+        ("void-element-with-child", "<br>x</br>", [("e", "br", [], [("t", "x")])], "r;l"),
+        ("element-named-like-root", "<[document]>x</[document]>", [("e", "[document]", [], [("t", "x")])], "o;l"),
+        ("numeric-128-159-cp1252-detour", "&#150;", [("t", "\x96")], "d0"),
+        ("numeric-hex-cp1252-detour", "&#x80;", [("t", "\x80")], "h000"),
+        ("decimal-longer-than-int-max-str-digits", "&#" + "0" * big + "65;", [("t", "A")], f"d{big}"),
+        ("name-not-in-table", "&nosuch;", [("t", "x")], "n" + cps("nosuch")),
+        ("name-of-another-character", "&lt;", [("t", "x")], "n" + cps("lt")),
+    ]
+    lines, meta = [], []
+    for what, text, nodes, choices in excluded:
+        offsets = []
+        # offsets of the start tags: every excluded document has at most one element, at offset 0
+        doc = doc_tokens(nodes, iter([0] * 4), text)
+        lines.append(f"c04 emit {cfg_tokens({})} {doc} {choices}")
+        lines.append(f"c04 norm {cfg_tokens({})} {doc}")
+        meta.append((what, text))
+    rep = drv.ask(lines)
+    for j, (what, text) in enumerate(meta):
+        em, nm = rep[2 * j], rep[2 * j + 1]
+        got = shape(real_parse(text, {}))
+        same_stream = merge_data(record(text) or []) == merge_data([] if em == "-" else em.split(";"))
+        ctx.count(f"excluded:{what}:" + ("conclusion-fails-on-the-real-code" if got != nm else "CONCLUSION-HOLDS(exclusion-not-forced)")
+                  + (":stream-as-emitted" if same_stream else ":not-writable"))
 
 
 SOUP_TOKENS = ["<", ">", "</", "/>", "<a", "<b", "<br", "<br>", "<br/>", "</br>", "<p>", "</p>", "</a>", "<pre>", "</pre>", "<script>",
@@ -550,7 +773,10 @@ def run(ctx: Ctx):
                 "quoting, entity spelling, in-tag whitespace, name case; real parse vs fold of the intended events and vs the Lean model fed with "
                 "the recorded stdlib callbacks. (2) malformed: token soup of 65 fragments; real parse vs model and vs an independent Python "
                 "adapter+fold over the recorded callbacks. (3) option grid: on_duplicate_attribute x empty_element_tags x containers x "
-                "preserve x store_line_numbers. non-trivial = contains a void element, a reference, a special string or a stray end tag")
+                "preserve x store_line_numbers. (5) writer: gen_tree documents (+ doctype, <![if ..]> declarations, empty texts) written with the "
+                "choices LOGGED (void spelling, per-character reference spelling with leading zeros, keyword case), 8 option sets; recorder(text) = "
+                "Lean emit(doc, choices) up to data chunking, real parse = Lean normalise(doc) = independent fold; 7 excluded points run on the "
+                "real code. non-trivial = contains a void element, a reference, a special string or a stray end tag; every writer document")
     ctx.assumptions = ["CPython's html.parser callback stream is recorded per text; the Lean tokenizer model (Model/Tokenizer.lean) reproduces it on every "
                        "text of this run (stream tokenizer-model), so the adapter theorems apply to `callbacks (Tokenizer.run text)`",
                        "str input (original_encoding None)"]
@@ -679,6 +905,8 @@ def run(ctx: Ctx):
     # Props/TK.lean) computes from the text - on every text of every stream above, rejected ones included
     from . import tk
     tk.stream(ctx, list(tk_texts), name="tokenizer-model", drv=drv)
+    # (5) the whole-document theorem: recorder = emit, real parse = normalise, for the writer's actual choices
+    writer_stream(ctx, drv)
     B = 20000
     for off in range(0, len(lines), B):
         rep = drv.ask(lines[off:off + B])
